@@ -424,7 +424,7 @@ def verbatim_flow(ctx):
     vt = db.func("codegen._GenerateRenderMethod.visitText")
     ws = [c for c in calls(vt, "self.printer.writeline", "self.printer.writelines")]
     ok = len(ws) == 1 and len(ws[0].args) == 1
-    arg = src(ws[0].args[0]) if ws else ""
+    arg = src(resolve_deep(vt, ws[0].args[0], 2)) if ws else ""
     ok = ok and ("repr(node.content)" in arg or "{node.content!r}" in arg or "%r" in arg and "node.content" in arg) and "__M_writer(" in arg
     ctx.check(ok, "visitText", db.where(vt), "visitText does not emit exactly one __M_writer(repr(node.content)) (repr is what protects the text from the printer's re-indentation)", "one write of repr(content)")
     ve = db.func("codegen._GenerateRenderMethod.visitExpression")
